@@ -113,6 +113,8 @@ def main(prop: str, tier: str) -> int:
                 if kind == 'read-raised':
                     continue
                 rep.violation(f'C04/{kind}', {'what': msg, 'text': text})
+    from checks import inserted_comments
+    composite.add_part(rep, 'inserted_comments_between_fields', inserted_comments.run(rep, tier, {'text'}))
     rep.cov['read_only'] = {'documents': ndocs, 'attribute_reads': reads}
     rep.cov['states'] = rep.cov.get('states', 0) + r.distinct
     rep.cov['transitions'] = rep.cov.get('transitions', 0) + r.generated
